@@ -128,11 +128,13 @@ func consumeBareInnerList(s string, f func(bareItem, param string)) (consumed, r
 		return "", s, false
 	}
 	rest = s[1:]
+	closed := false
 	for len(rest) != 0 {
 		var bareItem, param string
 		rest = rest[countLeftWhitespace(rest):]
 		if len(rest) != 0 && rest[0] == ')' {
 			rest = rest[1:]
+			closed = true
 			break
 		}
 		if bareItem, rest, ok = consumeBareItem(rest); !ok {
@@ -147,6 +149,10 @@ func consumeBareInnerList(s string, f func(bareItem, param string)) (consumed, r
 		if f != nil {
 			f(bareItem, param)
 		}
+	}
+	if !closed {
+		// "The end of the Inner List was not found; fail parsing."
+		return "", s, false
 	}
 	return s[:len(s)-len(rest)], rest, true
 }
